@@ -26,6 +26,7 @@ def families(tier):
         {'name': 'A4', 'params': dict(base, hist='BMC', kinds=['is_dir'], roles=['o'], targets=['o/d/g'],
                                       modes=['ok', 'raise_after'], mut_paths=mp), 'weight': 2},
     ]
+    q.append({'name': 'P2', 'params': dict(base, hist='BBC', universe=['c', 'o', 'o/d', 'o/dx']), 'weight': 1})
     q.append({'name': 'CD', 'params': dict(base, hist='BBC', universe=['c', 'c/x', 'c/sub']), 'weight': 1})
     q.append({'name': 'CD', 'params': dict(base, hist='BMBC', universe=['c', 'c/x', 'c/sub'], mut_paths=['c/x', 'c/sub', 'c/z']), 'weight': 1})
     q.append({'name': 'N3', 'params': dict(base, hist='BBC', universe=['c'] + UN3, kinds=['is_dir'], roles=['o']), 'weight': 3})
